@@ -1210,6 +1210,9 @@ where
                         return error("Unexpected character in class set intersection");
                     }
                     let operand = self.consume_class_set_operand()?;
+                    let operand = self.class_set_close_operand(operand);
+                    result.codepoints = self.class_set_closure(result.codepoints);
+                    self.class_set_fold_strings(&mut result.alternatives);
                     result.intersect_operand(operand);
                     match self.next() {
                         Some(0x5D /* ] */) => return Ok(result),
@@ -1226,6 +1229,9 @@ where
             ClassSetOperator::Subtraction => {
                 loop {
                     let operand = self.consume_class_set_operand()?;
+                    let operand = self.class_set_close_operand(operand);
+                    result.codepoints = self.class_set_closure(result.codepoints);
+                    self.class_set_fold_strings(&mut result.alternatives);
                     result.subtract_operand(operand);
                     match self.next() {
                         Some(0x5D /* ] */) => return Ok(result),
@@ -1239,6 +1245,71 @@ where
                 }
             }
         }
+    }
+
+    /// With the `i` flag a class set is computed on case-folded code points
+    /// (MaybeSimpleCaseFolding) and complemented among them. Keeping every set closed under
+    /// case folding is equivalent: unions, intersections, differences and complements of
+    /// closed sets are closed.
+    fn class_set_closure(&self, cps: CodePointSet) -> CodePointSet {
+        if self.flags.icase {
+            unicode::add_icase_code_points(cps)
+        } else {
+            cps
+        }
+    }
+
+    fn class_set_fold_strings(&self, strings: &mut ClassSetAlternativeStrings) {
+        if self.flags.icase {
+            for s in strings.0.iter_mut() {
+                for cp in s.iter_mut() {
+                    *cp = unicode::fold_code_point(*cp, true);
+                }
+            }
+        }
+    }
+
+    /// Prepare an operand of `&&` or `--`: both sides must be closed under case folding.
+    fn class_set_close_operand(&self, operand: ClassSetOperand) -> ClassSetOperand {
+        if !self.flags.icase {
+            return operand;
+        }
+        match operand {
+            ClassSetOperand::ClassSetCharacter(c) => {
+                let mut cps = CodePointSet::new();
+                cps.add_one(c);
+                ClassSetOperand::CharacterClassEscape(self.class_set_closure(cps))
+            }
+            ClassSetOperand::CharacterClassEscape(cps) => {
+                ClassSetOperand::CharacterClassEscape(self.class_set_closure(cps))
+            }
+            ClassSetOperand::Class(mut class) => {
+                class.codepoints = self.class_set_closure(class.codepoints);
+                self.class_set_fold_strings(&mut class.alternatives);
+                ClassSetOperand::Class(class)
+            }
+            ClassSetOperand::ClassStringDisjunction(mut s) => {
+                // Strings of one code point stand for that code point and all its case variants.
+                self.class_set_fold_strings(&mut s);
+                let mut class = ClassSet::new();
+                class.may_contain_strings = s.0.iter().any(|s| s.len() != 1);
+                for alternative in s {
+                    if let [cp] = *alternative {
+                        class.codepoints.add_one(cp);
+                    } else {
+                        class.alternatives.0.push(alternative);
+                    }
+                }
+                class.codepoints = self.class_set_closure(class.codepoints);
+                ClassSetOperand::Class(class)
+            }
+        }
+    }
+
+    /// A negated class escape (\D, \S, \W) as a class set operand.
+    fn class_set_negated_escape(&self, ct: CharacterClassType) -> ClassSetOperand {
+        let positive = codepoints_from_class_positive(ct);
+        ClassSetOperand::CharacterClassEscape(self.class_set_closure(positive).inverted())
     }
 
     fn consume_class_set_operand(&mut self) -> Result<ClassSetOperand, Error> {
@@ -1258,7 +1329,7 @@ where
                 let negate_set = self.try_consume('^');
                 let mut result = self.consume_class_set_expression(negate_set)?;
                 if negate_set {
-                    result.codepoints = result.codepoints.inverted();
+                    result.codepoints = self.class_set_closure(result.codepoints).inverted();
                 }
                 self.depth -= 1;
                 Ok(Class(result))
@@ -1312,7 +1383,7 @@ where
                     // CharacterClassEscape :: D
                     0x44 /* D */ => {
                         self.consume('D');
-                        Ok(CharacterClassEscape(codepoints_from_class(CharacterClassType::Digits, false)))
+                        Ok(self.class_set_negated_escape(CharacterClassType::Digits))
                     }
                     // CharacterClassEscape :: s
                     0x73 /* s */ => {
@@ -1322,7 +1393,7 @@ where
                     // CharacterClassEscape :: S
                     0x53 /* S */ => {
                         self.consume('S');
-                        Ok(CharacterClassEscape(codepoints_from_class(CharacterClassType::Spaces, false)))
+                        Ok(self.class_set_negated_escape(CharacterClassType::Spaces))
                     }
                     // CharacterClassEscape :: w
                     0x77 /* w */ => {
@@ -1332,7 +1403,7 @@ where
                     // CharacterClassEscape :: W
                     0x57 /* W */ => {
                         self.consume('W');
-                        Ok(CharacterClassEscape(codepoints_from_class(CharacterClassType::Words, false)))
+                        Ok(self.class_set_negated_escape(CharacterClassType::Words))
                     }
                     // CharacterClassEscape :: [+UnicodeMode] p{ UnicodePropertyValueExpression }
                     0x70 /* p */ => {
@@ -1353,9 +1424,8 @@ where
                         self.consume('P');
                         match self.try_consume_unicode_property_escape()? {
                             PropertyEscapeKind::CharacterClass(s) => {
-                                Ok(CharacterClassEscape(CodePointSet::from_sorted_disjoint_intervals(
-                                    s.to_vec(),
-                                ).inverted()))
+                                let cps = CodePointSet::from_sorted_disjoint_intervals(s.to_vec());
+                                Ok(CharacterClassEscape(self.class_set_closure(cps).inverted()))
                             }
                             PropertyEscapeKind::StringSet(_) => error("Invalid character escape"),
                         }
@@ -1709,7 +1779,11 @@ where
                             // Per ES2024: apply SimpleCaseFolding to the property set first.
                             // For \P (inverted): complement before expansion so that case
                             // variants of the complement are included (existential quantifier).
-                            if negate {
+                            // With `v` the complement is taken among folded code points instead,
+                            // which is the complement of the case-closed set.
+                            if negate && self.flags.unicode_sets {
+                                cps = unicode::add_icase_code_points(cps).inverted();
+                            } else if negate {
                                 cps = unicode::add_icase_code_points(cps.inverted());
                             } else {
                                 cps = unicode::add_icase_code_points(cps);
